@@ -639,6 +639,21 @@ class Exec:
                     return self.wrap(a << (b % bits), ta)
                 return a >> (b % bits)
             if not bv:
+                bits = INT_BITS.get(ta)
+                if base in ("Shl", "Shr") and not is_sym(b) and bits and ta and not signed(ta):
+                    # unsigned value shifted by a constant, integer mode: multiplication / division by 2^k modulo 2^width
+                    k = b % bits
+                    if base == "Shl":
+                        return z3.simplify((a * (1 << k)) % (1 << bits))
+                    return z3.simplify(a / (1 << k))
+                if base in ("BitAnd",) and not is_sym(b) and b >= 0 and (b & (b + 1)) == 0:
+                    return z3.simplify(a % (b + 1))          # x & (2^k - 1) for a non-negative x
+                if base in ("BitAnd", "BitOr", "BitXor") and bits and ta and not signed(ta):
+                    # unsigned operands in integer mode: through bit-vectors of the type's width and back
+                    ab = z3.Int2BV(a if is_sym(a) else z3.IntVal(a), bits)
+                    bb = z3.Int2BV(b if is_sym(b) else z3.IntVal(b), bits)
+                    r = {"BitAnd": ab & bb, "BitOr": ab | bb, "BitXor": ab ^ bb}[base]
+                    return z3.BV2Int(r, False)
                 raise ExecError("bitwise %s on symbolic Int (use bv mode)" % name)
             a2, b2 = self.to_bv(a, b, ta)
             if base == "BitAnd":
